@@ -171,6 +171,24 @@ Section Generic.
     - intros ->. apply reference_resolves.
   Qed.
 
+  (* a branch below [p] none of whose levels has a value (in particular a branch that does not
+     exist in the configuration) inherits the result of [p] *)
+  Lemma lookup_app_unvalued : forall c p q,
+    (forall j, (1 <= j <= len q)%nat -> valued c (p ++ firstn j q) = false) ->
+    lookup c (p ++ q) = lookup c p.
+  Proof.
+    intros c p q. induction q as [|x q IH] using rev_ind; intro H.
+    - rewrite app_nil_r. reflexivity.
+    - rewrite app_assoc, lookup_snoc.
+      assert (Hx : valued c ((p ++ q) ++ [x]) = false).
+      { specialize (H (len (q ++ [x]))). rewrite firstn_all, app_assoc in H. apply H.
+        rewrite app_length. cbn. lia. }
+      rewrite Hx. apply IH. intros j Hj.
+      specialize (H j). rewrite firstn_app in H.
+      replace (j - len q)%nat with 0%nat in H by lia. cbn [firstn] in H. rewrite app_nil_r in H.
+      apply H. rewrite app_length. cbn. lia.
+  Qed.
+
   (* Only the levels from some valued level downwards matter: two configurations that agree on the
      candidate keys of levels k..|p|, where level k has a value, give the same result. *)
   Lemma lookup_depends_on_deep_levels : forall c c' p k, (1 <= k <= len p)%nat ->
@@ -305,6 +323,59 @@ Proof.
   - rewrite <- E. apply split_join; [discriminate | exact Hf].
 Qed.
 
+Lemma split_dots_all_dot_free : forall s, Forall (fun x => dot_free x = true) (split_dots s).
+Proof.
+  induction s as [|a s IH]; [repeat constructor|].
+  cbn [split_dots]. destruct (is_dot a) eqn:Ha.
+  - constructor; [reflexivity | exact IH].
+  - destruct (split_dots s) as [|x l].
+    + constructor; [cbn; rewrite Ha; reflexivity | constructor].
+    + inversion IH as [|? ? Hx Hl]; subst. constructor; [cbn; rewrite Ha, Hx; reflexivity | exact Hl].
+Qed.
+
+Lemma split_dots_nonempty : forall s, split_dots s <> [].
+Proof.
+  destruct s as [|a s]; [discriminate|].
+  cbn [split_dots]. destruct (is_dot a); [discriminate|]. destruct (split_dots s); discriminate.
+Qed.
+
+Lemma join_split : forall s, join_dots (split_dots s) = s.
+Proof.
+  induction s as [|a s IH]; [reflexivity|].
+  cbn [split_dots]. destruct (is_dot a) eqn:Ha.
+  - apply Ascii.eqb_eq in Ha. subst a.
+    pose proof (split_dots_nonempty s) as Hne.
+    destruct (split_dots s) as [|y l]; [congruence|].
+    rewrite join_dots_cons2, IH. reflexivity.
+  - destruct (split_dots s) as [|x l].
+    + cbn in IH. subst s. reflexivity.
+    + destruct l as [|y l'].
+      * cbn [join_dots] in *. rewrite IH. reflexivity.
+      * rewrite join_dots_cons2 in *. cbn [String.append]. rewrite IH. reflexivity.
+Qed.
+
+(* every string that does not start with '.' is the dotted form of a well-formed path, namely of
+   the path it denotes *)
+Lemma proper_path_wf : forall s, proper_path s ->
+  wf_path (path_of_string s) /\ join_dots (path_of_string s) = s.
+Proof.
+  intros s H. destruct s as [|a s]; [split; [split; [constructor | exact I] | reflexivity]|].
+  cbn [proper_path] in H. unfold path_of_string. split; [split|].
+  - apply split_dots_all_dot_free.
+  - cbn [split_dots]. rewrite H. destruct (split_dots s); discriminate.
+  - apply join_split.
+Qed.
+
+(* conversely the dotted form of a well-formed path is proper *)
+Lemma wf_path_proper : forall p, wf_path p -> proper_path (join_dots p).
+Proof.
+  intros p [Hf Hh]. destruct p as [|x l]; [exact I|].
+  inversion Hf as [|? ? Hx _]; subst.
+  destruct x as [|a x]; [congruence|].
+  cbn in Hx. apply andb_true_iff in Hx as [Ha _]. apply negb_true_iff in Ha.
+  destruct l; [exact Ha | rewrite join_dots_cons2; exact Ha].
+Qed.
+
 Section GenericString.
   Context {V : Type}.
   Variable has : raw -> bool.
@@ -344,4 +415,10 @@ Section GenericString.
 
   Lemma lookup_s_join : forall c p, wf_path p -> lookup_s c (join_dots p) = lookup c p.
   Proof. intros c p Hwf. apply lookup_s_fuel_join; [exact Hwf | lia]. Qed.
+
+  Lemma lookup_s_proper : forall c s, proper_path s -> lookup_s c s = lookup c (path_of_string s).
+  Proof.
+    intros c s H. destruct (proper_path_wf s H) as [Hwf Hj].
+    rewrite <- Hj at 1. apply lookup_s_join, Hwf.
+  Qed.
 End GenericString.
